@@ -328,10 +328,12 @@ class VerdictSched:
 
     # -- controller: the actions that are not taken by a halmos thread (solver processes finishing)
     def release(self, base: str) -> None:
-        (self.ctl / f"{self.fn}.{base}.go").write_text("go")
+        with contextlib.suppress(OSError):  # the control directory is removed when the batch has ended
+            (self.ctl / f"{self.fn}.{base}.go").write_text("go")
 
     def release_all(self) -> None:
-        (self.ctl / f"{self.fn}.all.go").write_text("go")
+        with contextlib.suppress(OSError):
+            (self.ctl / f"{self.fn}.all.go").write_text("go")
 
     def _journal_has_reply(self, base: str) -> bool:
         key = f"{self.fn}/{base}"
@@ -339,7 +341,10 @@ class VerdictSched:
             with open(self.journal) as f:
                 for line in f:
                     if '"reply"' in line and key in line:
-                        r = json.loads(line)
+                        try:
+                            r = json.loads(line)
+                        except json.JSONDecodeError:
+                            continue  # a line that is being written: seen again at the next poll
                         if r.get("ev") == "reply" and r.get("q") == key:
                             return True
         except FileNotFoundError:
@@ -649,7 +654,8 @@ def verdict_read_journal(path: str) -> list:
             for line in f:
                 line = line.strip()
                 if line:
-                    out.append(json.loads(line))
+                    with contextlib.suppress(json.JSONDecodeError):
+                        out.append(json.loads(line))
     except FileNotFoundError:
         pass
     return out
